@@ -180,6 +180,19 @@ Example C09_guard_clause :
   spec (mk (ex_claims ++ [ex_unfinalized])%list false) = true /\ spec (mk (ex_unfinalized :: ex_claims) true) = false.
 Proof. vm_compute. repeat split; reflexivity. Qed.
 
+(* ---- verifyClaimGERs GENERATED from flow_base.go on every run is the model's first step ---- *)
+From Verif Require Base.GoNum Gen.GenVerifyClaims Proofs.GenAgreeVerifyClaims.
+(* the translated check (the `for .. range` loop with its early return) returns nil iff the model's verify_claim_gers holds, i.e. iff
+   every claim's global exit root is the hash of its mainnet and rollup exit roots - clause 3 of the property for every exit of every
+   certificate either flow builds, since both run VerifyBuildParams first *)
+Theorem C09_generated_verifyClaimGERs_is_model : forall (H : bytes -> N) (cs : list claim_ev),
+  GenAgreeVerifyClaims.gen_verify H cs = if verify_claim_gers H cs then GoNum.EOK else GoNum.EFail.
+Proof. exact GenAgreeVerifyClaims.verifyClaimGERs_agree. Qed.
+
+Theorem C09_generated_verifyClaimGERs_nil_iff : forall (H : bytes -> N) (cs : list claim_ev),
+  GenAgreeVerifyClaims.gen_verify H cs = GoNum.EOK <-> forall c, In c cs -> node H (k_mer c) (k_rer c) = k_ger c.
+Proof. exact GenAgreeVerifyClaims.verifyClaimGERs_nil_iff. Qed.
+
 Print Assumptions imported_exit_verifies.
 Print Assumptions chosen_root_at_or_below_finalized.
 Print Assumptions l1leaf_hash_is_contract_leaf.
@@ -192,3 +205,5 @@ Print Assumptions process_block_rows_ok.
 Print Assumptions unknown_ger_is_error.
 Print Assumptions known_ger_never_checked.
 Print Assumptions beyond_root_proof_is_zero_leaf_proof.
+Print Assumptions C09_generated_verifyClaimGERs_is_model.
+Print Assumptions C09_generated_verifyClaimGERs_nil_iff.
